@@ -31,7 +31,14 @@ TARGETS = [
     ("trace_entry", "modules/io_drawer/trace.py", "TraceEntry", "read", "stream"),
     ("fru", "modules/pel/peltool/src.py", "FRUIdentity", "__init__", "stream"),
     ("pce", "modules/pel/peltool/src.py", "PCEIdentity", "__init__", "stream"),
+    ("mru", "modules/pel/peltool/src.py", "MRU", "__init__", "stream"),
 ]
+# a constructor made of a straight part and one final `while` loop: head, loop condition and loop body are emitted separately
+SPLIT_TARGETS = [
+    ("callout", "modules/pel/peltool/src.py", "Callout", "__init__", "stream"),
+]
+# classes whose translated constructors may be called as  v = <Class>(stream)
+CALLEES = {"FRUIdentity": "fru", "PCEIdentity": "pce", "MRU": "mru"}
 LOOPS = [
     # label, file, function: the one loop of the function that reads the DataStream the function builds
     ("ilog_body", "modules/io_drawer/ilog.py", "parse_ilog_data"),
@@ -55,6 +62,8 @@ class Tr:
         self.unknown = []
         self.in_loop = False
         self.is_init = False
+        self.peek_ok = False        # the module's get_value is int.from_bytes(data[start:start + end], byteorder='big')
+        self.records = set()        # classes whose constructor just stores its parameters, in order
 
     def is_stream(self, e):
         return isinstance(e, ast.Name) and e.id == self.stream
@@ -67,6 +76,13 @@ class Tr:
             return e.id
         if isinstance(e, ast.Attribute) and isinstance(e.value, ast.Name) and e.value.id not in ("self", self.stream):
             return e.value.id + "." + e.attr
+        if isinstance(e, ast.Attribute):
+            # a chain of attributes below self / a local: self.fruIdentity.flattenedSize
+            cur, ok = e, True
+            while isinstance(cur, ast.Attribute):
+                cur = cur.value
+            if isinstance(cur, ast.Name) and cur.id != self.stream:
+                return ast.unparse(e)
         return None
 
     def ex(self, e):
@@ -74,11 +90,16 @@ class Tr:
             return "(XC %d)" % e.value
         if isinstance(e, ast.Attribute) and self.is_stream(e.value) and e.attr == "index":
             return "XIdx"
+        if (isinstance(e, ast.Call) and isinstance(e.func, ast.Name) and e.func.id == "get_value" and self.peek_ok
+                and [ast.unparse(a) for a in e.args] == [self.stream + ".data", self.stream + ".index", "2"] and not e.keywords):
+            return "XPeek2"
         if (isinstance(e, ast.Attribute) and isinstance(e.value, ast.Name) and e.value.id in ("self", self.consts.get("__class__"))
                 and e.attr in self.consts and e.attr != "__class__"):
             return "(XC %d)" % self.consts[e.attr]
         if isinstance(e, ast.Name) and e.id in self.consts and e.id != "__class__":
             return "(XC %d)" % self.consts[e.id]
+        if isinstance(e, ast.Attribute) and ast.unparse(e) in self.consts:
+            return "(XC %d)" % self.consts[ast.unparse(e)]
         v = self.var(e)
         if v is not None:
             return "(XV %s)" % T(v)
@@ -141,8 +162,28 @@ class Tr:
             return "(TIf %s %s %s)" % (self.cond(st.test), self.block(st.body), self.block(st.orelse))
         if isinstance(st, ast.Expr) and self.stream_call(st.value, "inc_index"):
             return "(TSkip %s)" % self.ex(st.value.args[0])
+        if isinstance(st, ast.For):
+            # for _ in range(E):  x = C(stream.get_int(a), stream.get_int(b));  L.append(x)
+            it = st.iter
+            if (isinstance(it, ast.Call) and isinstance(it.func, ast.Name) and it.func.id == "range" and len(it.args) == 1 and not st.orelse
+                    and len(st.body) == 2 and isinstance(st.body[0], ast.Assign) and len(st.body[0].targets) == 1
+                    and isinstance(st.body[0].targets[0], ast.Name) and isinstance(st.body[0].value, ast.Call)
+                    and isinstance(st.body[0].value.func, ast.Name) and st.body[0].value.func.id in self.records
+                    and len(st.body[0].value.args) == 2 and all(self.stream_call(a, "get_int") for a in st.body[0].value.args)
+                    and not st.body[0].value.keywords
+                    and isinstance(st.body[1], ast.Expr) and isinstance(st.body[1].value, ast.Call)
+                    and isinstance(st.body[1].value.func, ast.Attribute) and st.body[1].value.func.attr == "append"
+                    and self.var(st.body[1].value.func.value) is not None
+                    and [ast.unparse(a) for a in st.body[1].value.args] == [st.body[0].targets[0].id]):
+                a, b = st.body[0].value.args
+                return "(TRepeat %s (TAppendPair %s %s %s))" % (self.ex(it.args[0]), T(self.var(st.body[1].value.func.value)),
+                                                                  self.ex(a.args[0]), self.ex(b.args[0]))
+            raise Unsupported("a for loop outside the fragment")
         if isinstance(st, ast.Assign) and len(st.targets) == 1:
             v = self.var(st.targets[0])
+            if (v is not None and isinstance(st.value, ast.Call) and isinstance(st.value.func, ast.Name) and st.value.func.id in CALLEES
+                    and len(st.value.args) == 1 and self.is_stream(st.value.args[0]) and not st.value.keywords):
+                return "(TCall %s %s)" % (T(v), T(st.value.func.id))
             if v is None:
                 raise Unsupported("assignment target outside the fragment: %s" % ast.unparse(st.targets[0]))
             val = st.value
@@ -173,9 +214,7 @@ class Tr:
                     t = "(TRstrip %s %d%%N)" % (T(v), c)
                     out = t if out is None else "(TSeq %s %s)" % (t, out)
                 return out
-            if any(self.is_stream(n) for n in ast.walk(val)) and not (isinstance(val, ast.Attribute) and val.attr == "index"):
-                raise Unsupported("the stream is used outside the primitives: %s" % ast.unparse(st))
-            return "(TLet %s %s)" % (T(v), self.ex(val))
+            return "(TLet %s %s)" % (T(v), self.ex(val))      # (an expression that uses the stream outside stream.index / get_value is refused by ex)
         raise Unsupported("statement outside the fragment: %s" % ast.unparse(st).split("\n")[0])
 
     def block(self, stmts):
@@ -214,6 +253,24 @@ def find(tree, cls, name):
             if len(fs) == 1:
                 return fs[0], consts
     raise Unsupported("%s.%s not found exactly once" % (cls, name))
+
+
+def module_facts(tree):
+    """(record classes, whether get_value is the plain big-endian slice read)"""
+    records, peek = set(), False
+    for n in tree.body:
+        if isinstance(n, ast.ClassDef):
+            inits = [b for b in n.body if isinstance(b, ast.FunctionDef) and b.name == "__init__"]
+            if len(n.body) == 1 and len(inits) == 1:
+                f = inits[0]
+                params = [a.arg for a in f.args.args][1:]
+                if params and [ast.unparse(b) for b in f.body] == ["self.%s = %s" % (q, q) for q in params]:
+                    records.add(n.name)
+        if isinstance(n, ast.FunctionDef) and n.name == "get_value":
+            params = [a.arg for a in n.args.args]
+            if params == ["data", "start", "end"] and [ast.unparse(b) for b in n.body] == ["return int.from_bytes(data[start:start + end], byteorder='big')"]:
+                peek = True
+    return records, peek
 
 
 def module_consts(tree):
@@ -272,6 +329,7 @@ def main():
             tr = Tr(consts, stream)
             tr.is_init = fn == "__init__"
             tr.in_loop = tr.is_init                  # stream-free statements of a constructor (a diagnostic print) have no stream effect
+            tr.records, tr.peek_ok = module_facts(tree)
             term = tr.block(f.body)
             for u in tr.unknown:
                 sys.stderr.write("extract_readers: %s.%s: %s\n" % (cls, fn, u))
@@ -282,6 +340,35 @@ def main():
             ok = False
             lines.append("(* STUB: %s *)" % str(e).replace("*)", "* )").replace("(*", "( *")[:300])
             lines.append("Definition prog_%s : st := TUnknown.\n" % label)
+    for label, rel, cls, fn, stream in SPLIT_TARGETS:
+        try:
+            tree = ast.parse(open(os.path.join(ROOT, rel)).read())
+            f, consts = find(tree, cls, fn)
+            if [a.arg for a in f.args.args] != ["self", stream]:
+                raise Unsupported("%s.%s parameters" % (cls, fn))
+            body = [b for b in f.body if not (isinstance(b, ast.Expr) and isinstance(b.value, ast.Constant))]
+            if not body or not isinstance(body[-1], ast.While) or body[-1].orelse or any(isinstance(n, (ast.While, ast.For)) for b in body[:-1] for n in ast.walk(b)):
+                raise Unsupported("%s.%s is not a straight part followed by one while loop" % (cls, fn))
+            tr = Tr(consts, stream)
+            tr.is_init = tr.in_loop = True
+            tr.records, tr.peek_ok = module_facts(tree)
+            head = tr.block(body[:-1])
+            guard = tr.cond(body[-1].test)
+            loop = tr.block(body[-1].body)
+            for u in tr.unknown:
+                sys.stderr.write("extract_readers: %s.%s: %s\n" % (cls, fn, u))
+                lines.append("(* outside the fragment: %s *)" % u.replace("*)", "* )").replace("(*", "( *")[:200])
+            lines.append("Definition prog_%s_head : st :=\n  %s.\n" % (label, head))
+            lines.append("Definition guard_%s : cd := %s.\n" % (label, guard))
+            lines.append("Definition prog_%s_body : st :=\n  %s.\n" % (label, loop))
+        except (Unsupported, OSError, SyntaxError) as e:
+            sys.stderr.write("extract_readers: %s: %s\n" % (label, e))
+            ok = False
+            lines.append("(* STUB: %s *)" % str(e).replace("*)", "* )").replace("(*", "( *")[:300])
+            lines.append("Definition prog_%s_head : st := TUnknown." % label)
+            lines.append("Definition guard_%s : cd := CTruthy (XC 0)." % label)
+            lines.append("Definition prog_%s_body : st := TUnknown.\n" % label)
+    lines.append("Definition callee_progs : list (name * st) :=\n  [%s].\n" % "; ".join("(%s, prog_%s)" % (T(c), l) for c, l in CALLEES.items()))
     for label, rel, fn in LOOPS:
         try:
             tree = ast.parse(open(os.path.join(ROOT, rel)).read())
